@@ -36,6 +36,10 @@ def run(prop: str, tier: str, seed: int) -> int:
     r = core.run_mc(sp["module"], wd, cfg=cfg, rep=rep, label=sp["module"] + " (model theorems + one vector per state)", timeout=3000)
     if r.violated:
         raise tlc.MachineryError(f"model theorem violated on the reference spec: {r.violated}")
+    core.assert_families(r.printed, {"C05": {"D", "P", "E", "KW", "Box", "IntBox", "GHold"},
+                                     "C07": {"K", "B", "M3", "G3", "SP"},
+                                     "C08": {"M3", "G3"},
+                                     "C09": {"K", "M3", "SH", "Group", "User", "KN"}}[prop], sp["module"], rep)
     runs = [r.printed]
     if prop == "C05":
         ctor_path, r0 = core.build_ctor_table(wd)
